@@ -18,6 +18,8 @@
 //   job k=v ...                           define a job (index = order):
 //        mode=scanner|rules|file|rfile|fd  buf=<i> flags=<n> timeout=<s> tns=<ns> ext=<name>:<i|b|f|s>:<value> (repeat)
 //        abort=<k>:<1|2>  rdv=I|M|B  reps=<n>  disable=<rule idx>  moddata=<str>  trunc=1  nested=1
+//        park=C|T|I|D|M|S  (held inside its first callback of that kind, before reading the message, while the
+//        release=1 threads of the run complete a scan each; no release thread in the run: no parking)
 //   watch <hex addr> <size> <name>        a writable global of libyara (address from nm on this non-PIE binary): compared
 //                                         before / after every run, a change is printed as "G name=.. off=.."
 //   run <protect 0|1> <job> <job> ...      one thread per listed job, all started together
@@ -28,6 +30,7 @@
 #include <errno.h>
 #include <malloc.h>
 #include <stdatomic.h>
+#include <semaphore.h>
 #include <sys/stat.h>
 
 // internals of libyara (libyara.c:53-63); weak: a tree that hides them still links, the observations are then
@@ -176,6 +179,7 @@ typedef struct { char name[48]; char type; char sval[96]; long long ival; double
 typedef struct
 {
   int mode, buf, flags, timeout_s, reps, disable, trunc, nested;
+  int park, parkn, release;   // park=<kind>: wait inside the first callback of that kind until the release threads have scanned
   long long tns;
   int next; HEXT ext[8];
   int abort_k, abort_act;
@@ -187,7 +191,7 @@ typedef struct
 {
   HJOB* job; int tid;
   char* trace; size_t tlen, tcap;
-  int msg_index, rdv_done;
+  int msg_index, rdv_done, parked, released, park_seen;
   int obs_count, obs_inst, obs_tls;
   int rcs[16];
   char* first_trace; int same;
@@ -204,6 +208,8 @@ typedef struct { uint8_t* addr; size_t size; char name[64]; uint8_t* snap; } HWA
 static HWATCH watch[MAXWATCH]; static int nwatch = 0;
 static pthread_barrier_t start_bar, rdv_bar;
 static int rdv_n = 0;
+static sem_t sem_parked, sem_released;
+static int n_park = 0, n_release = 0;
 static struct sigaction orig_bus;
 static FILE* g_out;
 
@@ -252,6 +258,26 @@ static void rendezvous(TCTX* c)
 
 static int dummy_cb(YR_SCAN_CONTEXT* ctx, int msg, void* data, void* ud) { return CALLBACK_CONTINUE; }
 
+// deterministic interleaving: thread A is held inside a callback, BEFORE it reads what the message points to, until
+// every release thread has completed a whole scan; then A reads (copies) the message.  Without a release thread in
+// the run (the solo reference) parking does nothing.
+static void park_here(TCTX* c, int kind)
+{
+  if (c->job->park != kind) return;
+  if (c->park_seen++ != c->job->parkn) return;     // the parkn-th message of that kind in this scan
+  if (!c->parked && n_release > 0)
+  {
+    c->parked = 1;
+    for (int i = 0; i < n_release; i++) sem_post(&sem_parked);
+    for (int i = 0; i < n_release; i++) sem_wait(&sem_released);
+  }
+}
+
+static void put_bytes(TCTX* c, const uint8_t* p, int n)
+{
+  for (int i = 0; i < n; i++) tappend(c, "%02x", p[i]);
+}
+
 static int scan_cb(YR_SCAN_CONTEXT* ctx, int msg, void* data, void* ud)
 {
   TCTX* c = (TCTX*) ud;
@@ -263,10 +289,19 @@ static int scan_cb(YR_SCAN_CONTEXT* ctx, int msg, void* data, void* ud)
   case CALLBACK_MSG_RULE_NOT_MATCHING:
   {
     YR_RULE* r = (YR_RULE*) data;
+    park_here(c, 'M');
     tappend(c, "%c:%s:%s:", msg == CALLBACK_MSG_RULE_MATCHING ? 'M' : 'N', r->ns->name, r->identifier);
     if (msg == CALLBACK_MSG_RULE_MATCHING)
     {
       YR_STRING* str;
+      YR_META* meta;
+      const char* tag;
+      yr_rule_tags_foreach(r, tag) { tappend(c, "t=%s,", tag); }
+      yr_rule_metas_foreach(r, meta)
+      {
+        if (meta->type == META_TYPE_STRING) tappend(c, "m:%s=%s,", meta->identifier, meta->string);
+        else tappend(c, "m:%s=%lld,", meta->identifier, (long long) meta->integer);
+      }
       yr_rule_strings_foreach(r, str)
       {
         YR_MATCH* m;
@@ -274,7 +309,12 @@ static int scan_cb(YR_SCAN_CONTEXT* ctx, int msg, void* data, void* ud)
         tappend(c, "%s=", str->identifier);
         yr_string_matches_foreach(ctx, str, m)
         {
-          if (n++ < 6) tappend(c, "%lld/%d,", (long long) (m->base + m->offset), m->match_length);
+          if (n++ < 6)
+          {
+            tappend(c, "%lld/%d/", (long long) (m->base + m->offset), m->match_length);
+            put_bytes(c, m->data, m->data_length < 6 ? m->data_length : 6);   // the matched bytes (scanner's notebook)
+            tappend(c, ",");
+          }
         }
         tappend(c, "#%d|", n);
       }
@@ -297,6 +337,7 @@ static int scan_cb(YR_SCAN_CONTEXT* ctx, int msg, void* data, void* ud)
   case CALLBACK_MSG_IMPORT_MODULE:
   {
     YR_MODULE_IMPORT* mi = (YR_MODULE_IMPORT*) data;
+    park_here(c, 'I');
     tappend(c, "I:%s;", mi->module_name);
     if (j->moddata[0] && strcmp(mi->module_name, "tests") == 0)
     {
@@ -318,15 +359,19 @@ static int scan_cb(YR_SCAN_CONTEXT* ctx, int msg, void* data, void* ud)
     break;
   }
   case CALLBACK_MSG_MODULE_IMPORTED:
+    park_here(c, 'D');
     tappend(c, "D:%s;", ((YR_OBJECT*) data)->identifier);
     break;
   case CALLBACK_MSG_TOO_MANY_MATCHES:
-    tappend(c, "T:%s;", ((YR_STRING*) data)->identifier);
+    park_here(c, 'T');
+    tappend(c, "T:%s:%s;", g_rules->rules_table[((YR_STRING*) data)->rule_idx].identifier, ((YR_STRING*) data)->identifier);
     break;
   case CALLBACK_MSG_CONSOLE_LOG:
+    park_here(c, 'C');          // the text is read only now: it must still be this scanner's
     tappend(c, "C:%s;", (const char*) data);
     break;
   case CALLBACK_MSG_TOO_SLOW_SCANNING:
+    park_here(c, 'S');
     tappend(c, "S:%s;", ((YR_STRING*) data)->identifier);
     break;
   default:
@@ -384,6 +429,7 @@ static int one_scan(TCTX* c)
   int rc = -1;
   const char* path = NULL;
   c->msg_index = 0;
+  c->park_seen = 0;
   c->tpath[0] = 0;
   if (j->mode >= 2)
   {
@@ -430,7 +476,21 @@ static void* thread_main(void* arg)
   {
     c->tlen = 0;
     if (c->trace) c->trace[0] = 0;
+    if (j->release && !c->released && n_park > 0)
+      for (int i = 0; i < n_park; i++) sem_wait(&sem_parked);       // every parking thread sits in its callback
     int rc = one_scan(c);
+    if (j->park && !c->parked && n_release > 0)
+    {
+      // the message to park at never came: let the release threads go, and say so
+      c->parked = 1;
+      for (int i = 0; i < n_release; i++) sem_post(&sem_parked);
+      tappend(c, "never-parked;");
+    }
+    if (j->release && !c->released && n_park > 0)
+    {
+      c->released = 1;
+      for (int i = 0; i < n_park; i++) sem_post(&sem_released);
+    }
     if (r < 16) c->rcs[r] = rc;
     tappend(c, " rc=%d", rc);
     if (r == 0) c->first_trace = strdup(c->trace ? c->trace : "");
@@ -548,6 +608,9 @@ static void do_job(char* args)
     else if (!strcmp(tok, "disable")) j->disable = atoi(v);
     else if (!strcmp(tok, "trunc")) j->trunc = atoi(v);
     else if (!strcmp(tok, "nested")) j->nested = atoi(v);
+    else if (!strcmp(tok, "park")) j->park = v[0];
+    else if (!strcmp(tok, "parkn")) j->parkn = atoi(v);
+    else if (!strcmp(tok, "release")) j->release = atoi(v);
     else if (!strcmp(tok, "rdv")) j->rdv = v[0];
     else if (!strcmp(tok, "moddata")) snprintf(j->moddata, sizeof j->moddata, "%s", v);
     else if (!strcmp(tok, "abort")) { j->abort_k = atoi(v); char* c = strchr(v, ':'); j->abort_act = c ? atoi(c + 1) : 1; }
@@ -569,11 +632,14 @@ static void do_run(char* args, FILE* out)
   if (!g_rules || n == 0) { fprintf(out, "run rc=nothing\n"); return; }
   TCTX* ctx = (TCTX*) calloc(n, sizeof(TCTX));
   pthread_t th[64], sampler;
-  rdv_n = 0;
+  rdv_n = 0; n_park = 0; n_release = 0;
+  sem_init(&sem_parked, 0, 0); sem_init(&sem_released, 0, 0);
   for (int i = 0; i < n; i++)
   {
     ctx[i].job = &jobs[idx[i]]; ctx[i].tid = i; ctx[i].obs_count = -1; ctx[i].obs_inst = -1; ctx[i].obs_tls = -1;
     if (jobs[idx[i]].rdv) rdv_n++;
+    if (jobs[idx[i]].park) n_park++;
+    if (jobs[idx[i]].release) n_release++;
     if (jobs[idx[i]].mode >= 2 && !jobs[idx[i]].trunc) buf_path(&bufs[jobs[idx[i]].buf]);
   }
   pthread_barrier_init(&start_bar, NULL, n);
